@@ -224,7 +224,7 @@ Inductive ItemStr : itemA -> list byte -> Prop :=
    reading is therefore excluded from the completeness statement. Before the repair of F14 this exclusion had to cover every rule
    name that merely started with "dn". *)
 Definition KnownF14 (it : itemA) : Prop :=
-  match it with IExt (Some m) _ false _ => is_dn_word m = true | _ => False end.
+  match it with IExt (Some m) (Some _) false _ => is_dn_word m = true | _ => False end.
 
 Definition item_stop (rest : list byte) : Prop := match rest with [] => True | c :: _ => c = ")"%byte end.
 Lemma item_stop_val rest : item_stop rest -> val_stop rest.
@@ -403,16 +403,32 @@ Proof.
   - rewrite opt_tag_dn_coloneq, opt_mrule_none, tag_coloneq, Hu. reflexivity.
 Qed.
 
+(* the form without an attribute description: the flag is taken when a rule follows it, never on ":dn:=" (where dn is the rule) *)
+Lemma is_alnum_not_eq c : is_alpha c = true \/ is_digit c = true -> beq c "="%byte = false.
+Proof. destruct c; vm_compute; intros [H|H]; congruence. Qed.
+Lemma opt_dn_m_flag d m r : DnStr true d -> Oid m -> opt_dn_m (d ++ ":"%byte :: m ++ r) = (true, ":"%byte :: m ++ r).
+Proof. intros (c1 & c2 & -> & H) Ho. destruct (Oid_head _ Ho) as (c & w & -> & Hc). unfold opt_dn_m. cbn [app]. rewrite H.
+  change (beq ":" ":")%byte with true. cbn [andb]. now rewrite (is_alnum_not_eq c Hc). Qed.
+Lemma opt_dn_m_rule m r : Oid m -> opt_dn_m (":"%byte :: m ++ ":"%byte :: "="%byte :: r) = (false, ":"%byte :: m ++ ":"%byte :: "="%byte :: r).
+Proof.
+  intros Ho. destruct (Oid_head _ Ho) as (c & w & -> & _). unfold opt_dn_m. cbn [app]. change (beq ":" ":")%byte with true. cbn [andb].
+  destruct w as [|b w]; cbn [app].
+  { unfold is_dn. change (beq ":" "n" || beq ":" "N")%byte with false. now rewrite andb_false_r. }
+  destruct w as [|c3 w]; cbn [app].
+  - (* the rule is two characters long: if they spell dn, "=" follows the colon *)
+    change (beq ":" ":")%byte with true. change (beq "=" "=")%byte with true. cbn [negb]. now rewrite !andb_false_r.
+  - destruct (is_dn c b) eqn:Edn; [|reflexivity]. cbn [andb]. now rewrite (Oid_dn_third c b c3 w Edn Ho).
+Qed.
 Lemma dn_mrule_app m dn d v s rest :
-  Oid m -> DnStr dn d -> ValEnc v s -> item_stop rest -> ~ KnownF14 (IExt (Some m) None dn v) ->
+  Oid m -> DnStr dn d -> ValEnc v s -> item_stop rest ->
   dn_mrule ((d ++ ":"%byte :: m ++ ":"%byte :: "="%byte :: s) ++ rest) = Some (ext_tag_of (Some m) None v dn, rest).
 Proof.
-  intros Hm Hd Hv Hr Hk. unfold dn_mrule. pose proof (unescaped_app _ _ _ Hv (item_stop_val _ Hr)) as Hu.
+  intros Hm Hd Hv Hr. unfold dn_mrule. pose proof (unescaped_app _ _ _ Hv (item_stop_val _ Hr)) as Hu.
   assert (Hat : forall r, attributetype (m ++ ":"%byte :: "="%byte :: r) = Some (m, ":"%byte :: "="%byte :: r)).
   { intros r. apply attributetype_app; [assumption|]. cbn. split; reflexivity. }
   destruct dn; [|cbn in Hd; subst d]; rewrite <- ?app_assoc; cbn [app]; rewrite <- ?app_assoc; cbn [app].
-  - rewrite (opt_tag_dn d _ Hd), tag_colon, Hat, tag_coloneq, Hu. reflexivity.
-  - rewrite (opt_dn_rule _ _ Hm Hk), tag_colon, Hat, tag_coloneq, Hu. reflexivity.
+  - rewrite (opt_dn_m_flag d m _ Hd Hm), tag_colon, Hat, tag_coloneq, Hu. reflexivity.
+  - rewrite (opt_dn_m_rule m _ Hm), tag_colon, Hat, tag_coloneq, Hu. reflexivity.
 Qed.
 
 Theorem item_complete it s rest : ItemStr it s -> ~ KnownF14 it -> item_stop rest ->
